@@ -939,6 +939,14 @@ async def exec_dst_case(case):
         hh = {"cron(0 6 * * *)": "06:00:00", "cron(30 7 * * *)": "07:30:00", "once(06:00)": "06:00:00", "once(4:15:30)": "04:15:30"}[case["spec"]]
         expected = [f"{case['day']} {hh}"]
         observed = [r_[1] for r_ in recs]
+        if case["spec"].startswith("cron"):
+            # cron follows the local wall clock across the change: the run happens when the wall clock reads the instant,
+            # i.e. after the real time between the (aware) definition instant and the (aware) trigger instant
+            z = zoneinfo.ZoneInfo(TZ)
+            inst = dt.datetime.fromisoformat(expected[0]).replace(tzinfo=z)
+            real = (inst.astimezone(dt.timezone.utc) - base.replace(tzinfo=z).astimezone(dt.timezone.utc)).total_seconds()
+            expected = [[expected[0], real]]
+            observed = [[r_[1], r_[0]] for r_ in recs]
     return {"expected": expected, "observed": observed}
 
 
